@@ -217,7 +217,24 @@ def check_spec(spec):
         bad = roundtrip(x)
         if bad:
             return bad, len(objs)
-    return None, len(objs)
+    # history: the SAME objects are serialised again after their trees and costs were edited in place (a renamed
+    # ancestor, a colour added and one changed, a unit cost raised); the dictionary form must follow the live object
+    try:
+        inp = objs[0]
+        ot, st = inp.object_tree, inp.species_lca.tree
+        ot.name = ot.name + "x"
+        ot.add_feature("color", "123456")
+        last = [n for n in st.traverse()][-1]
+        last.add_feature("color", "654321")
+        key = next(iter(inp.costs))
+        inp.costs[key] = inp.costs[key] + 1
+    except Exception as exc:
+        return ("exception", f"in-place edit failed: {type(exc).__name__}: {exc}"), len(objs)
+    for x in objs:
+        bad = roundtrip(x)
+        if bad:
+            return ("edited_" + bad[0], "after an in-place edit of the trees / costs of an object serialised before: " + bad[1]), len(objs)
+    return None, 2 * len(objs)
 
 
 def spec_json(spec):
